@@ -58,7 +58,7 @@ def run_case(seed, tier, rec, st):
     fam = Family("c15", future_annotations=rng.random() < 0.1)
     other = None
     try:
-        tg = TypeGen(fam, rng, dc_config_fn=config_fn)
+        tg = TypeGen(fam, rng, dc_config_fn=config_fn, mixins=("DataClassDictMixin", "DataClassDictMixin", "DataClassMessagePackMixin", "DataClassORJSONMixin"))
         kind = rng.random()
         vals_override = None
         if kind < 0.5:
@@ -84,7 +84,10 @@ def run_case(seed, tier, rec, st):
                              "Resp2": [mod.Resp2(p2)]}[which]
             # compile the first specialisation earlier through another entry point
             mod.Resp1(p1).to_dict()
-        elif kind < 0.70:
+        elif kind < 0.69:
+            # a TypedDict on its own (optional keys, nullable values): root of a codec vs element / field positions
+            t = tg.typed_dict(rng.randint(0, 1))
+        elif kind < 0.77:
             # union of dataclasses told apart by their required fields, in any declaration order, every member used
             n = rng.randint(2, 3)
             names = []
@@ -181,6 +184,25 @@ def run_case(seed, tier, rec, st):
                 if not same_outcome(again, base):
                     rec.violation("history:encoder-changed-after-creating-codecs", {"type": tsrc, "before": common.short(base), "after": common.short(again)},
                                   {"type_kinds": kinds(fam, t)})
+            # ---------------- a format mixin's own methods, the format codec object and the one-shot function
+            if isinstance(T, type) and j < 3:
+                for meth, modname, ename, fname, parse in (("to_msgpack", "msgpack", "MessagePackEncoder", "msgpack_encode", lambda b: __import__("msgpack").unpackb(b, raw=False)),
+                                                           ("to_jsonb", "orjson", "ORJSONEncoder", "json_encode", lambda b: __import__("orjson").loads(b))):
+                    if not hasattr(T, meth):
+                        continue
+                    cmod = __import__(f"mashumaro.codecs.{modname}", fromlist=[ename])
+                    outs3 = {"mixin": outcome(lambda: parse(getattr(v, meth)())),
+                             "codec": outcome(lambda: parse(getattr(cmod, ename)(T).encode(v))),
+                             "func": outcome(lambda: parse(getattr(cmod, fname)(v, T)))}
+                    rec.evaluation()
+                    badf = [n for n, o in outs3.items() if not same_outcome(o, outs3["codec"])]
+                    if badf:
+                        rec.violation(f"encode-disagree:{meth}:{badf[0]}-vs-codec:{outs3['codec'][0]}->{outs3[badf[0]][0]}",
+                                      {"type": tsrc, "value": common.short(v), "codec": common.short(outs3["codec"], 300),
+                                       "others": {n: common.short(outs3[n], 300) for n in badf}, "family": fam.to_json()},
+                                      {"routes": badf, "type_kinds": kinds(fam, t), "format": modname})
+                    else:
+                        rec.count("format_mixin_codec_func_agree")
             # ---------------- format codecs: a user default_dialect that sets nothing is the same entry point
             if isinstance(T, type) and j < 2:
                 from mashumaro.dialect import Dialect as _Dialect
